@@ -454,7 +454,9 @@ class C07(Check):
             'acts; optional run(till=T) with T >= start. Oracle: C01 clock model + independent evaluation of the trigger '
             'time. non-trivial = notification already true on entry, or trigger and completion in one time step, or '
             'nesting >= 2 untils, or till; distinct by sha1. Side streams: one condition object reused by several blocks, connectives '
-            'whose operands toggle back and forth, nested untils fired in one step while the body unwinds through asynchronous clean-up.')
+            'whose operands toggle back and forth, nested untils fired in one step while the body unwinds through asynchronous clean-up, '
+            'one date condition object guarding blocks entered before/at/after its date, 1-4 nested untils whose interrupts arrive during '
+            'clean-up that takes time (also generated as one coroutine function), programs shifted to a clock starting at 2^31.')
     budgets = {'quick': dict(examples=2400, procs=4), 'thorough': dict(examples=200000, procs=16)}
     level_text = ('For every generated program the exit time of every block must equal min(trigger, completion, enclosing '
                   'triggers) from the model, every event before that time must happen and none after it, blocks ended by '
